@@ -72,27 +72,89 @@ Fixpoint is_mark (marker : string) (e : expr) : bool :=
   | _ => false
   end.
 
-(** a string literal used as a fixture name: the usage spans the literal minus one
-    column at either end; the end column is relative to the line the literal ENDS on *)
-Definition str_usage (name : string) (line col ecol : N) : lusage :=
-  mk_lusage name line (col + 1) (ecol - 1).
-
-Definition usefixtures_names (e : expr) : list lusage :=
-  match e with
-  | ECall f args _ =>
-      if is_mark "usefixtures" f
-      then flat_map (fun a => match a with EStr s l c _ ec => [str_usage s l c ec] | _ => [] end) args
-      else []
-  | _ => []
+(** a string literal used as a fixture name ([string_usage_span], since fix d199d81): the
+    usage spans the occurrence of the name on the literal's FIRST line, behind the opening
+    quote, that is not part of a longer identifier; when there is none (implicit
+    concatenation, escapes) the literal minus one column at either end (the end column is
+    then relative to the line the literal ENDS on).  [is_alphanumeric] is modelled for
+    ASCII; every non-ASCII scalar value counts as alphanumeric. *)
+Definition ident_char (c : cp) : bool :=
+  ((48 <=? c) && (c <=? 57)) || ((65 <=? c) && (c <=? 90)) || ((97 <=? c) && (c <=? 122)) || (c =? 95) || (128 <=? c).
+Definition last_cp (s : text) : option cp := match rev s with c :: _ => Some c | [] => None end.
+Fixpoint find_token (fuel : nat) (name src : text) (from : N) : option N :=
+  match fuel with
+  | O => None
+  | S f =>
+      match slice_from src from with
+      | None => None
+      | Some rest =>
+          match find name rest with
+          | None => None
+          | Some k =>
+              let at_ := from + k in
+              let before_ok := match slice_to src at_ with
+                               | Some pre => match last_cp pre with Some c => negb (ident_char c) | None => true end
+                               | None => true
+                               end in
+              let after_ok := match slice_from src (at_ + blen name) with
+                              | Some (c :: _) => negb (ident_char c)
+                              | _ => true
+                              end in
+              if before_ok && after_ok then Some at_ else find_token f name src (at_ + blen name)
+          end
+      end
   end.
-
-Fixpoint usefixtures_from_expr (e : expr) : list lusage :=
-  match e with
-  | ECall _ _ _ => usefixtures_names e
-  | EList elts => flat_map usefixtures_from_expr elts
-  | ETuple elts => flat_map usefixtures_from_expr elts
-  | _ => []
+Definition first_quote (src : text) : N :=
+  match find [34] src, find [39] src with
+  | Some a, Some b => N.min a b + 1
+  | Some a, None => a + 1
+  | None, Some b => b + 1
+  | None, None => 0
   end.
+Fixpoint take_line (s : text) : text :=
+  match s with [] => [] | c :: r => if c =? 10 then [] else c :: take_line r end.
+
+Section StrSpan.
+  Variable content : text.
+
+  Definition str_span (name : string) (line col eline ecol : N) : N * N :=
+    let idx := build_line_index content in
+    let ls := fun l => match nth_opt idx (l - 1) with Some o => o | None => 0 end in
+    let lo := ls line + col in
+    let hi := ls eline + ecol in
+    let nm := utf8_decode name in
+    match (match slice content lo hi with
+           | Some src =>
+               let src1 := take_line src in
+               match nm with
+               | [] => None
+               | _ => find_token (S (length src1)) nm src1 (first_quote src1)
+               end
+           | None => None
+           end) with
+    | Some at_ => (col + at_, col + at_ + blen nm)
+    | None => (col + 1, ecol - 1)
+    end.
+  Definition str_usage (name : string) (line col eline ecol : N) : lusage :=
+    mk_lusage name line (fst (str_span name line col eline ecol)) (snd (str_span name line col eline ecol)).
+
+  Definition usefixtures_names (e : expr) : list lusage :=
+    match e with
+    | ECall f args _ =>
+        if is_mark "usefixtures" f
+        then flat_map (fun a => match a with EStr s l c el ec => [str_usage s l c el ec] | _ => [] end) args
+        else []
+    | _ => []
+    end.
+
+  Fixpoint usefixtures_from_expr (e : expr) : list lusage :=
+    match e with
+    | ECall _ _ _ => usefixtures_names e
+    | EList elts => flat_map usefixtures_from_expr elts
+    | ETuple elts => flat_map usefixtures_from_expr elts
+    | _ => []
+    end.
+End StrSpan.
 
 (** [param_str.split(',').map(trim)] *)
 Fixpoint split_on (c : cp) (s : text) (cur : text) : list text :=
@@ -103,7 +165,7 @@ Fixpoint split_on (c : cp) (s : text) (cur : text) : list text :=
 Definition param_names (s : string) : list string :=
   map (fun t => utf8_encode (trim t)) (split_on 44 (utf8_decode s) []).
 
-Definition indirect_fixtures (e : expr) : list lusage :=
+Definition indirect_fixtures (content : text) (e : expr) : list lusage :=
   match e with
   | ECall f args kws =>
       if is_mark "parametrize" f then
@@ -111,13 +173,13 @@ Definition indirect_fixtures (e : expr) : list lusage :=
                                   | (Some a, v) => if String.eqb a "indirect" then Some v else None
                                   | _ => None
                                   end) kws, args with
-        | Some ind, EStr ps l c _ ec :: _ =>
+        | Some ind, EStr ps l c el ec :: _ =>
             let names := param_names ps in
             match ind with
-            | EBool true => map (fun n => str_usage n l c ec) names
+            | EBool true => map (fun n => str_usage content n l c el ec) names
             | EList elts =>
                 flat_map (fun x => match x with
-                                   | EStr s l' c' _ ec' => if mem_str s names then [str_usage s l' c' ec'] else []
+                                   | EStr s l' c' el' ec' => if mem_str s names then [str_usage content s l' c' el' ec'] else []
                                    | _ => []
                                    end) elts
             | _ => []
@@ -382,8 +444,8 @@ Section Visit.
 
   Definition function_items (name : string) (decs : list expr) (args : list arg) (returns : option expr)
              (body : list stmt) (line eline : N) : list item :=
-    flat_map (fun d => map IUse (usefixtures_names d)) decs
-    ++ flat_map (fun d => map IUse (indirect_fixtures d)) decs
+    flat_map (fun d => map IUse (usefixtures_names content d)) decs
+    ++ flat_map (fun d => map IUse (indirect_fixtures content d)) decs
     ++ match List.find is_fixture_decorator decs with
        | Some dec =>
            let fname := match fixture_name_from_decorator dec with Some n => n | None => name end in
@@ -414,11 +476,11 @@ Section Visit.
              else []
          | _ => []
          end)
-        ++ (if existsb (is_name "pytestmark") targets then map IUse (usefixtures_from_expr value) else [])
+        ++ (if existsb (is_name "pytestmark") targets then map IUse (usefixtures_from_expr content value) else [])
     | SAnnAssign target (Some value) _ =>
-        if is_name "pytestmark" target then map IUse (usefixtures_from_expr value) else []
+        if is_name "pytestmark" target then map IUse (usefixtures_from_expr content value) else []
     | SClassDef _ decs body =>
-        flat_map (fun d => map IUse (usefixtures_names d)) decs ++ flat_map visit_stmt body
+        flat_map (fun d => map IUse (usefixtures_names content d)) decs ++ flat_map visit_stmt body
     | SFunctionDef _ name decs args returns body line eline =>
         function_items name decs args returns body line eline
     | _ => []
